@@ -61,7 +61,7 @@ def start(host, msg):
     return Pending(host, msg_id, startpos, box)
 
 
-def run_concurrently(env, net, streams, order_rng, limit=3000):
+def run_concurrently(env, net, streams, order_rng, limit=1200):
     """streams: {host index: [messages]}; each host handles its messages one after the other (one connection), the hosts
     run concurrently: at every turn the scheduler (order_rng) picks which idle host gets its next message or advances the
     clock / flushes PB links.  Returns {host index: [(msg, replies)]}"""
